@@ -90,7 +90,12 @@ func (e *hmacEngine) drawKey() []byte {
 		n = r.Choose(301, "keylen")
 	}
 	k := make([]byte, n)
-	s := byte(r.Choose(256, "keyseed"))
+	// keys come in a few families with a common prefix, so that keys of
+	// different lengths that agree on their first bytes (first block) occur
+	s := byte(r.Choose(4, "keyfamily"))
+	if r.Pct(25, "keyseed-any") {
+		s = byte(r.Choose(256, "keyseed"))
+	}
 	for i := range k {
 		k[i] = s + byte(i*31)
 	}
